@@ -25,6 +25,12 @@
   `generate_close_to_exact`: the trimming removes at most `θ · lossCount ns` of the mass and the
   returned (renormalised) distribution is within that distance, event by event, of the exact product law
   (`lossCount ns ≤ 9 · #modes · 5^(Σ nᵢ)` counts the places where an entry `≤ θ` can be dropped).
+
+  Sampler.  `generate_samples` is modelled as a deterministic function of the draws of `random.choices` /
+  `random.shuffle` (`Model/C06Samp.lean`); the theorems of the section "the direct sample generator" are about the
+  push-forward of the IDEAL law of these draws (independent indices with probability `wᵢ/Σw`, uniform permutations).
+  Proved in full for the no-filter route (`sampler_no_filter_law`); for the event-table route the law of the photons a
+  sample carries is proved, their placement over the modes is not (`sampler_filtered_law_partial` says what is missing).
 -/
 import PercevalModel.Lemmas.C06
 import PercevalModel.Lemmas.C06Fresh
